@@ -33,12 +33,14 @@ def diff (m i : State) : Option String :=
 def check (j : Json) : Except String (Option String) := do
   let pre : State ← getField j "pre" >>= fromJson?
   let post : State ← getField j "post" >>= fromJson?
-  let op : Op ← getField j "op" >>= fromJson?
-  let ok : Bool ← getField j "ok" >>= fromJson?
   let bad : List String ← getField j "badKeys" >>= fromJson?
-  let resp : String ← getField j "respPath" >>= fromJson?
   if !keysNodup pre.files then throw "pre-state has duplicate keys"
   if !bad.isEmpty then return some s!"field=keyshape impl has keys not of the form address/owner/: {bad}"
+  -- a restart of the network from its own exported genesis changes nothing the module holds
+  if let .ok (.str "restart") := getField j "op" then return diff pre post
+  let op : Op ← getField j "op" >>= fromJson?
+  let ok : Bool ← getField j "ok" >>= fromJson?
+  let resp : String ← getField j "respPath" >>= fromJson?
   match step H pre op with
   | none =>
     if ok then return some "field=outcome model=failed impl=ok"
